@@ -43,7 +43,8 @@ class VDatetime(datetime):
         Clock_reads[0] += 1
         base = EPOCH + Clock.now_us() * US
         if tz is None:
-            d = base.replace(tzinfo=None)  # process TZ is UTC
+            # naive local time of the host, as datetime.now() gives it (process TZ, see set_host_tz)
+            d = base.astimezone(ZoneInfo(HOST_TZ[0])).replace(tzinfo=None) if HOST_TZ[0] else base.replace(tzinfo=None)
         else:
             d = base.astimezone(tz)
         return cls(d.year, d.month, d.day, d.hour, d.minute, d.second, d.microsecond, tzinfo=d.tzinfo, fold=d.fold)
@@ -56,6 +57,16 @@ class VDatetime(datetime):
 
 
 Clock_reads = [0]
+HOST_TZ: List[Optional[str]] = [None]
+HOST_ZONES = ["Asia/Tokyo", "America/New_York", "Europe/Berlin", "Asia/Kolkata", "Pacific/Auckland"]
+
+
+def set_host_tz(zone: Optional[str]) -> None:
+    """The time zone of the machine the scheduler runs on (TZ of the process): None = UTC.  Neither due-ness
+    of a cron schedule nor the delay of a one-shot may depend on it."""
+    HOST_TZ[0] = zone
+    os.environ["TZ"] = zone or "UTC"
+    _time.tzset()
 
 
 def install_clock() -> None:
@@ -298,7 +309,7 @@ class C13(Check):
     assumptions = [
         "oracle local time comes from zoneinfo (system tzdata); cases where pytz's bundled database disagrees are skipped and counted",
         "only the unambiguous numeric grammar is generated (no names, no 7 for Sunday, no a/n, no star inside lists)",
-        "process time zone is UTC",
+        "process time zone is UTC, except in the batches that deliberately run with TZ set to another zone (tzset)",
     ]
 
     def extra_evidence(self, merged: Dict[str, Any]) -> Dict[str, Any]:
@@ -316,11 +327,23 @@ class C13(Check):
                 if not tr:
                     continue
                 day = rng.choice(tr)
-                yield {"mode": "dstday", "zone": zone, "day_us": day, "seed": rng.randint(0, 10 ** 9)}
+                yield {"mode": "dstday", "zone": zone, "day_us": day, "seed": rng.randint(0, 10 ** 9),
+                       "host_tz": rng.choice(HOST_ZONES) if rng.random() < 0.25 else None}
             else:
-                yield {"mode": "random", "seed": rng.randint(0, 10 ** 9), "n": 400}
+                yield {"mode": "random", "seed": rng.randint(0, 10 ** 9), "n": 400,
+                       "host_tz": rng.choice(HOST_ZONES) if rng.random() < 0.3 else None}
 
     def run_case(self, spec: Dict[str, Any]) -> CaseResult:
+        set_host_tz(spec.get("host_tz"))
+        try:
+            cr = self._run_case(spec)
+        finally:
+            set_host_tz(None)
+        if spec.get("host_tz"):
+            cr.counters["batches_on_non_utc_host"] += 1
+        return cr
+
+    def _run_case(self, spec: Dict[str, Any]) -> CaseResult:
         install_clock()
         cr = CaseResult()
         rng = random.Random(spec["seed"])
@@ -362,8 +385,15 @@ class C13(Check):
                     # sharing one expression is the normal case in a deployment)
                     others = [None, rng.choice(ZONES), rng.choice(ZONES), rng.choice([3600, -18000, 19800])]
                     rng.shuffle(others)
+                    # half of the time the variants also share a user-chosen schedule id (an id re-used for a
+                    # re-created schedule): the answer depends on the schedule's fields, not on its id's history
+                    sid = f"nightly-{rng.randint(0, 3)}" if rng.random() < 0.5 else None
                     for off2 in others:
-                        self._one(cr, e, off2, mk_task(e, off2), us, rng, check_seconds=False)
+                        t2 = mk_task(e, off2)
+                        if sid:
+                            t2.schedule_id = sid
+                            cr.counters["schedule_id_reused"] += 1
+                        self._one(cr, e, off2, t2, us, rng, check_seconds=False)
                         cr.counters["same_expr_other_offset"] += 1
                 restricted = sum(1 for f in e.split(" ") if f != "*")
                 if restricted >= 2 or off is not None:
@@ -488,7 +518,8 @@ class C14(Check):
     thorough_cases = 16 * 4000
     quick_time = 25.0
     thorough_time = 300.0
-    assumptions = ["process time zone is UTC", "aware T compared by its own tzinfo.utcoffset (as the statement says: as instants)"]
+    assumptions = ["process time zone is UTC, except in the batches that deliberately run with TZ set to another zone (tzset)",
+                   "aware T compared by its own tzinfo.utcoffset (as the statement says: as instants)"]
 
     def extra_evidence(self, merged: Dict[str, Any]) -> Dict[str, Any]:
         return {"individual_evaluations": merged["events"].get("get_task_delay", 0),
@@ -532,9 +563,19 @@ class C14(Check):
 
     def cases(self, rng: random.Random, tier: str, shard: int, nshards: int) -> Iterator[Any]:
         while True:
-            yield {"seed": rng.randint(0, 10 ** 9), "n": 500}
+            yield {"seed": rng.randint(0, 10 ** 9), "n": 500, "host_tz": rng.choice(HOST_ZONES) if rng.random() < 0.3 else None}
 
     def run_case(self, spec: Dict[str, Any]) -> CaseResult:
+        set_host_tz(spec.get("host_tz"))
+        try:
+            cr = self._run_case(spec)
+        finally:
+            set_host_tz(None)
+        if spec.get("host_tz"):
+            cr.counters["batches_on_non_utc_host"] += 1
+        return cr
+
+    def _run_case(self, spec: Dict[str, Any]) -> CaseResult:
         install_clock()
         cr = CaseResult()
         rng = random.Random(spec["seed"])
@@ -607,6 +648,33 @@ class C14(Check):
             if abs(T - now) <= 62 * 1_000_000:
                 cr.nontrivial = True
                 sigs.append((now, T, tzs if not isinstance(tzs, tuple) else tzs[0]))
+            if rng.random() < 0.25:
+                # the answer is a function of (schedule, now): the same schedule evaluated again a moment later
+                # (polls of two minutes both see a one-shot that is not yet removed; an id re-used for a new time)
+                now2 = now + rng.choice([0, 1, 250_000, 1_000_000, 2_500_000])
+                task2 = task
+                if rng.random() < 0.5:
+                    T2 = T + rng.choice([0, 3_000_000, 20_000_000])
+                    task2 = ScheduledTask(task_name="t", labels={}, args=[], kwargs={}, time=mk_time(T2, tzs), schedule_id=task.schedule_id)
+                else:
+                    T2 = T
+                Clock.us = now2
+                try:
+                    got2: Any = run_mod.get_task_delay(task2)
+                except Exception as exc:  # noqa: BLE001
+                    got2 = f"raised {type(exc).__name__}: {exc}"
+                cr.events["get_task_delay"] += 1
+                cr.counters["re_evaluations"] += 1
+                B2 = now2 - now2 % M + M
+                desc2 = f"second evaluation of schedule id {task.schedule_id!r}: now={(EPOCH + now2 * US).isoformat()} T={(EPOCH + T2 * US).isoformat()} -> {got2!r} (first: now={(EPOCH + now * US).isoformat()} -> {got!r})"
+                if T2 <= now2:
+                    ok = got2 == 0 and not isinstance(got2, bool)
+                elif T2 > B2 + 1_000_000:
+                    ok = got2 is None
+                else:
+                    ok = type(got2) is int and T2 <= now2 + got2 * 1_000_000 < T2 + 1_000_000
+                if not ok:
+                    cr.violations.append(Violation("answer-depends-on-history", desc2))
         self._fold_pairs(cr, rng)
         cr.sig = jhash(sigs)
         cr.trace = {"examples": [(EPOCH + a * US).isoformat() + " / " + (EPOCH + b * US).isoformat() + f" / {c}" for a, b, c in sigs[:3]]}
